@@ -42,6 +42,7 @@ S12 = bytes.fromhex('444f574e47524401')
 HRR_RANDOM = bytes.fromhex('CF21AD74E59A6111BE1D8C021E65B891C2A211167ABB8C5E079E09E2C8A8339C')
 MASKS = (0x01, 0x80, 0xff)
 ALLOWED_BASELINE_DIFF = {'crandom', 'srandom', 'server_chain', 'client_chain', 'resumed'}
+EMS_OFF_QUICK = ('tls12-rich', 'tls10-dhe', 'tls12-clientauth', 'tls12-ticket-issue', 'tls11-srp')
 COMBOS = [('ch_strip_tls13', 'sh_strip_sentinel'), ('ch_max_tls11', 'sh_strip_sentinel'),
           ('ch_max_tls10', 'sh_strip_sentinel'), ('ch_versions_only_tls10', 'sh_strip_sentinel'),
           ('ch_strip_ems', 'sh_add_ems'), ('ch_add_ems', 'sh_strip_ems'), ('ch_strip_etm', 'sh_add_etm'),
@@ -124,7 +125,8 @@ def judge(sc, base, r, ops, held=False):
             out.append(('views-differ:' + ','.join(diff), 'both endpoints completed but their views differ in %s' % diff))
         vs = (r['vc']['version'], r['vc']['suite'])
         if vs != base['negotiated']:
-            kind = 'downgrade' if vs[0] < base['negotiated'][0] else 'changed'
+            hv = base['negotiated'][0]          # None: the honest endpoints do not complete at all (refused fallback)
+            kind = 'downgrade' if hv is not None and tuple(vs[0]) < tuple(hv) else 'changed'
             out.append(('negotiation-%s' % kind, 'both endpoints completed at %r but the honest endpoints negotiate %r'
                         % (vs, base['negotiated'])))
         if not r['hs_same']:
@@ -220,9 +222,13 @@ def work(job):
         return {'name': name, 'ops': ops, 'harness_error': traceback.format_exc()[-600:]}
     if 'error' in r:
         return {'name': name, 'ops': ops, 'harness_error': r['error']}
-    viol = judge(sc, base, r, ops)
-    if ('@need-held-run', '') in viol:
-        viol = [v for v in viol if v[0] != '@need-held-run'] + held_run(P, sc, ops, seed)
+    try:
+        viol = judge(sc, base, r, ops)
+        if ('@need-held-run', '') in viol:
+            viol = [v for v in viol if v[0] != '@need-held-run'] + held_run(P, sc, ops, seed)
+    except Exception:  # noqa  an oracle bug must not hide the other cases: reported per case as a broken tie
+        import traceback
+        return {'name': name, 'ops': ops, 'harness_error': 'oracle failed: ' + traceback.format_exc()[-600:]}
     res = {'name': name, 'ops': ops, 'c': r['c'], 's': r['s'], 'both': r['both'], 'viol': viol,
            'applied': len([a for a in r['applied'] if a[0] != 'rw-error']), 'hs_same': r['hs_same']}
     if keep or viol:
@@ -244,6 +250,7 @@ def gen_jobs(ctx, name, b, quick):
     """all tamper cases of one scenario from its honest trace"""
     tr = b['trace']
     rng = ctx.rng
+    sc = _scenarios()[name]
     jobs = []
     base = {'baseline_diff': b['diff'], 'negotiated': (b['vc']['version'], b['vc']['suite'])}
     # byte flips over every plaintext record (header included)
@@ -307,6 +314,31 @@ def gen_jobs(ctx, name, b, quick):
             if len(ch_idx) > 1:
                 jobs.append((name, [('rw', 'c2s', ch_idx[0], a), ('rw', 'c2s', ch_idx[1], a),
                                     ('rw', 's2c', sh_idx[-1], c)], base, 1, True))
+    # with extended_master_secret switched off by the attacker (extension renamed to an unknown type, or stripped) the key
+    # material no longer depends on the transcript: every other tampering is then caught by the Finished comparison ALONE.
+    # Crossed with every rewrite of either hello (and, below, with byte flips of the other plaintext messages).
+    ems_full = (not quick) or name in EMS_OFF_QUICK
+    if ch_idx and not tr['tls13'] and not sc.get('resume') and applicable('c2s', ch_idx[0], 'ch_rename_ems'):
+        off = ('rw', 'c2s', ch_idx[0], 'ch_rename_ems')
+        if ems_full:
+            for rw in P.CH_REWRITES:
+                if rw not in ('ch_rename_ems', 'ch_strip_ems', 'ch_add_ems') and applicable('c2s', ch_idx[0], rw):
+                    jobs.append((name, [off, ('rw', 'c2s', ch_idx[0], rw)], base, 1, True))
+            for i in sh_idx:
+                for rw in P.SH_REWRITES:
+                    if applicable('s2c', i, rw):
+                        jobs.append((name, [off, ('rw', 's2c', i, rw)], base, 1, True))
+            for d in ('c2s', 's2c'):
+                for i in range(nmsg[d]):
+                    jobs.append((name, [off, ('drop', d, i)], base, 1, False))
+                    jobs.append((name, [off, ('dup', d, i)], base, 1, False))
+        # byte flips in the messages after the hellos (certificate, key exchange, ...)
+        for d in ('c2s', 's2c'):
+            offs = [o for rec in tr[d]['records'] if rec['plain'] for o in range(rec['off'], rec['off'] + rec['len'])]
+            stride = 97 if quick else 7
+            for k, o in enumerate(offs):
+                if k % stride == (3 if quick else 0) and (ems_full or k % (stride * 4) == 3):
+                    jobs.append((name, [off, ('flip', d, o, MASKS[k % 3])], base, 1, False))
     jobs.append((name, [('rw', 'c2s', 0, 'identity'), ('rw', 's2c', 0, 'identity')], base, 1, True))
     return jobs
 
